@@ -49,13 +49,14 @@ const (
 	aStaleLeaderDance
 	aTransferLagging
 	aDoubleVoteDance
+	aTransferToRemoved
 	numActionKinds
 )
 
 var actionNames = [...]string{"tick", "tickAll", "step", "deliver", "deliverTo", "drop", "dup", "propose", "read",
 	"confChange", "apply", "snapshot", "crash", "restart", "stepCrash", "partition", "heal", "transfer", "status",
 	"rounds", "startJoin", "timeoutOff", "isolate",
-	"splitLeader", "healOne", "elect", "lagSnapshot", "joinFlow", "staleLeaderDance", "transferLagging", "doubleVoteDance"}
+	"splitLeader", "healOne", "elect", "lagSnapshot", "joinFlow", "staleLeaderDance", "transferLagging", "doubleVoteDance", "transferToRemoved"}
 
 type simAction struct {
 	Kind int
@@ -79,6 +80,9 @@ type simShape struct {
 	TimeoutOffs []int
 	TinyMsg     bool // one entry per Replicate message / apply batch (maxEntrySize, maxEntriesToApplySize)
 	TinyInMem   bool // tiny in-memory entry slices and frequent in-mem GC
+	// a replica that applies its own removal runs one more step (the step worker had
+	// already passed the stopped test) instead of vanishing at once
+	LingerRemoved bool
 }
 
 type simCase struct {
@@ -105,7 +109,7 @@ func baseWeights() map[int]int {
 		aTick: 6, aTickAll: 6, aStep: 10, aDeliver: 14, aDeliverTo: 6, aDrop: 3, aDup: 2, aPropose: 6, aRead: 3,
 		aConfChange: 2, aApply: 6, aSnapshot: 2, aCrash: 2, aRestart: 3, aStepCrash: 2, aPartition: 1, aHeal: 1,
 		aTransfer: 1, aStatus: 2, aRounds: 8, aStartJoin: 2, aTimeoutOff: 1, aIsolate: 1,
-		aSplitLeader: 3, aHealOne: 2, aElect: 2, aLagSnapshot: 1, aJoinFlow: 1, aStaleLeaderDance: 1, aTransferLagging: 1, aDoubleVoteDance: 1,
+		aSplitLeader: 3, aHealOne: 2, aElect: 2, aLagSnapshot: 1, aJoinFlow: 1, aStaleLeaderDance: 1, aTransferLagging: 1, aDoubleVoteDance: 1, aTransferToRemoved: 1,
 	}
 }
 
@@ -128,7 +132,7 @@ var famC04 = []string{"vote-not-durable", "ack-not-durable", "term-not-durable",
 var famC06 = []string{"stale-read-index", "read-confirmed-without-voting-quorum"}
 var famC07 = []string{"cc-outcome-differs", "two-pending-config-changes", "removed-id-readmitted", "voters-empty",
 	"campaign-with-unapplied-config-change", "raft-membership-differs-from-applied"}
-var famC18 = []string{"read-confirmed-without-voting-quorum", "raft-membership-differs-from-applied", "non-voter-campaigns", "removed-replica-leads", "removed-leader-still-leader", "witness-left-witness-state",
+var famC18 = []string{"read-confirmed-without-voting-quorum", "raft-membership-differs-from-applied", "non-voter-campaigns", "removed-replica-campaigns", "removed-replica-leads", "removed-leader-still-leader", "witness-left-witness-state",
 	"leader-without-voting-quorum", "commit-without-voting-quorum", "payload-sent-to-witness", "metadata-entry-on-non-witness"}
 var famC17 = []string{"stuck-higher-term-replica-ignores-leader", "stuck-witness-ahead-of-every-voter", "stuck-quorum-needs-self-removed-replica", "no-leader-in-fair-phase", "proposal-stuck-in-fair-phase", "read-stuck-in-fair-phase",
 	"replica-not-caught-up", "config-change-stuck-in-fair-phase", "completed-without-quorum"}
@@ -196,6 +200,7 @@ func getProfile(name string) profile {
 		w[aConfChange] = 7
 		w[aStartJoin] = 5
 		w[aSnapshot] = 3
+		w[aTransferToRemoved] = 3
 	case "C17":
 		p.allowDup = true
 		p.family = union(famC17)
@@ -227,6 +232,7 @@ func genShape(t *rapid.T, p profile) simShape {
 	}
 	sh.TinyMsg = rapid.Bool().Draw(t, "tinymsg")
 	sh.TinyInMem = rapid.Bool().Draw(t, "tinyinmem")
+	sh.LingerRemoved = rapid.Bool().Draw(t, "lingerremoved")
 	nsp := p.minSpare + vfhelp.PickN(t, "nspare", 4-p.minSpare)
 	for i := 0; i < nsp; i++ {
 		if len(p.spareBias) > 0 {
@@ -342,6 +348,7 @@ func (s *sim) startedRep(i int) *simReplica {
 }
 
 func (s *sim) setup(sh simShape) {
+	s.lingerRemoved = sh.LingerRemoved
 	for i := 1; i <= sh.Voters; i++ {
 		r := s.addReplica(uint64(i), kVoter, true)
 		r.timeoutOff = uint64(sh.TimeoutOffs[i-1])
@@ -756,6 +763,46 @@ func (s *sim) doAction(a simAction) {
 			s.round(a.C%2 == 0)
 		}
 		f.holdApply = false
+	case aTransferToRemoved:
+		// leadership is handed to a voter whose removal is committed but not yet applied
+		// by the leader; the TimeoutNow reaches the target after it applied its own removal
+		l := s.leader()
+		if l == nil || len(l.mem.Addresses) < 3 {
+			break
+		}
+		var voters []*simReplica
+		for _, r := range s.runningReps() {
+			if r.id != l.id && r.kind == kVoter && !r.lingering {
+				if _, ok := l.mem.Addresses[r.id]; ok {
+					voters = append(voters, r)
+				}
+			}
+		}
+		if len(voters) < 2 {
+			break
+		}
+		tg := voters[a.A%len(voters)]
+		s.flag("transfer-to-removed")
+		l.holdApply, tg.holdApply = true, true
+		s.configChange(l, pb.ConfigChange{Type: pb.RemoveNode, ReplicaID: tg.id, ConfigChangeId: l.mem.CCID})
+		for i := 0; i < 3+a.B%2; i++ {
+			s.round(false)
+		}
+		if nl := s.leader(); nl == l {
+			s.transfer(l, tg.id)
+			s.step(l, 0)
+		}
+		// the target applies what is committed (its own removal) while the TimeoutNow is in flight
+		tg.holdApply = false
+		s.apply(tg, 1<<20)
+		s.deliverBetween(l.id, tg.id)
+		if a.C%2 == 0 {
+			s.step(tg, 0)
+		}
+		l.holdApply = false
+		for i := 0; i < 1+a.C%3; i++ {
+			s.round(a.C%2 == 1)
+		}
 	case aDoubleVoteDance:
 		// two candidates of the same term court one voter that crashes and restarts
 		// between their requests
@@ -987,7 +1034,7 @@ func (s *sim) fairPhase(requireProgress bool) {
 			// submit through some running non-witness member
 			var via *simReplica
 			for _, r := range s.runningReps() {
-				if r.kind != kWitness && len(r.mem.Addresses) > 0 && s.isMember(r) {
+				if r.kind != kWitness && !r.lingering && len(r.mem.Addresses) > 0 && s.isMember(r) {
 					if _, ok := r.mem.Addresses[r.id]; ok || r.kind == kNonVoting {
 						via = r
 					}
@@ -1021,7 +1068,18 @@ func (s *sim) fairPhase(requireProgress bool) {
 		}
 		if rop != nil && (rop.outcome == "dropped" || rop.outcome == "lost") {
 			via := s.reps[rop.rep]
-			if via.running() {
+			if !via.running() || via.lingering {
+				// the client's replica is gone (it applied its own removal): the client
+				// goes to another member
+				for _, r := range s.runningReps() {
+					if r.kind != kWitness && !r.lingering && len(r.mem.Addresses) > 0 && s.isMember(r) {
+						if _, ok := r.mem.Addresses[r.id]; ok || r.kind == kNonVoting {
+							via = r
+						}
+					}
+				}
+			}
+			if via.running() && !via.lingering {
 				s.readIndex(via, "fair")
 				rop = s.ops[len(s.ops)-1]
 				readAt = i
